@@ -143,10 +143,10 @@ func (m *Machine) resolve(tok string) any {
 	panic("unknown handle " + tok)
 }
 
-func (m *Machine) L(tok string) at.List     { return m.resolve(tok).(at.List) }
-func (m *Machine) O(tok string) at.Object   { return m.resolve(tok).(at.Object) }
-func (m *Machine) RefGV(tok string) *GV     { return &GV{K: 'R', Ref: m.resolve(tok), RTok: tok} }
-func (m *Machine) IsObj(tok string) bool    { return tok[0] == 'O' }
+func (m *Machine) L(tok string) at.List   { return m.resolve(tok).(at.List) }
+func (m *Machine) O(tok string) at.Object { return m.resolve(tok).(at.Object) }
+func (m *Machine) RefGV(tok string) *GV   { return &GV{K: 'R', Ref: m.resolve(tok), RTok: tok} }
+func (m *Machine) IsObj(tok string) bool  { return tok[0] == 'O' }
 func (m *Machine) LiveTokens() []string {
 	r := make([]string, 0, len(m.live))
 	for _, e := range m.live {
